@@ -22,7 +22,7 @@ N(tok) == NumOf(tok)
 StateNames1 == {"V", "S", "beta"}
 StateNames2 == {"w", "E", "gamma"}
 NestNames == {"alpha", "I", "N"}
-ConstNames == {"g", "Q", "zeta"}
+ConstNames == {"g", "Q", "zeta", "pi"}     \* "pi": a name the .ode grammar reads as the number, unless it is renamed
 
 VARIABLES pc, s1, s2, nest1, nest2, deep, cn, shape
 vars == <<pc, s1, s2, nest1, nest2, deep, cn, shape>>
